@@ -1,4 +1,5 @@
 """C02 — luamin renaming: correspondence (model vs MinifyNameFactory) + consistency/injectivity/reserved oracle."""
+import os
 from common import hx
 import lexutil as L
 import minutil as M
@@ -36,7 +37,11 @@ def check_relation(res, key, inp, ins, outs, reserved, keep, keep_all):
 def run(ctx, res):
     rng = ctx.rng
     from pico8.lua import lua
-    reserved = set(lua.MinifyNameFactory.PRESERVED_NAMES)
+    # reserved names: PICO-8's API (a fixed list kept with the check, not read from picotool), Lua's keywords, and whatever else the
+    # implementation preserves
+    api = set(open(os.path.join(os.path.dirname(os.path.dirname(os.path.abspath(__file__))), 'ref', 'pico8_api.txt'), 'rb').read().split())
+    keywords = set(b'and break do else elseif end false for function goto if in local nil not or repeat return then true until while'.split())
+    reserved = set(lua.MinifyNameFactory.PRESERVED_NAMES) | api | keywords
     res.rule = ('request histories of 1..5000 names over populations containing would-be generated names (a, b, ba, aa), builtins, keywords, '
                 'glyph names and thousands of distinct names x {default, keep-all, keep-file with comments/blank/padded lines}; '
                 '_name_for_id for ids 0..N exhaustively; luamin on generated programs with aligned name tokens; '
@@ -45,6 +50,10 @@ def run(ctx, res):
     for h in range(ctx.budget(60, 800)):
         n = rng.choice([1, 5, 30, 200, 1500, 5000]) if h % 7 == 0 else rng.choice([1, 5, 30, 200])
         ins = gen_history(rng, n, reserved)
+        if h < 3:
+            # every API name and keyword-like name once, among ordinary names
+            ins = sorted(api | keywords) + gen_history(rng, 40, reserved)
+            rng.shuffle(ins)
         cfg = rng.choice(['default', 'keepall', 'keepfile'])
         keep = []
         args = {}
